@@ -1,8 +1,153 @@
 import Driver.Proto
+import Verif.Spec.HtmlAttr
+import Verif.Model.HtmlAttr
+import Verif.Spec.HtmlKnown
+import Verif.Model.Html
+import Verif.Spec.HtmlKnownDoc
 /-! driver handlers for property C03 (ops `model.*`, `spec.*`, `trig.*`) -/
 namespace Verif.Driver.C03
 open Verif Verif.Driver
+open Verif.Gen
 
-def handlers : List (String × Handler) := []
+def utf8 (n : Nat) : Bytes :=
+  let b (x : Nat) : UInt8 := UInt8.ofNat x
+  if n < 0x80 then [b n]
+  else if n < 0x800 then [b (0xC0 + n / 64), b (0x80 + n % 64)]
+  else if n < 0x10000 then [b (0xE0 + n / 4096), b (0x80 + n / 64 % 64), b (0x80 + n % 64)]
+  else [b (0xF0 + n / 262144), b (0x80 + n / 4096 % 64), b (0x80 + n / 64 % 64), b (0x80 + n % 64)]
+
+def duBytes : Spec.HtmlAttr.DU → Bytes
+  | .lit c => [charToByte c]
+  | .cp n => utf8 n
+
+/-- `model.c03.replent mode raw` — mode 0: ReplaceEntities text maps, 1: attr (rev = nil),
+    2: ReplaceMultipleWhitespaceAndEntities text maps, 3: same with rev = nil -/
+def replent : Handler := fun args => do
+  let mode ← argNat args 0
+  let raw ← argChars args 1
+  let em := C03Tables.entitiesMap
+  let rev := C03Tables.textRevEntitiesMap
+  let out := match mode with
+    | 0 => Model.HtmlAttr.replaceEntities em rev raw
+    | 1 => Model.HtmlAttr.replaceEntities em [] raw
+    | 2 => Model.HtmlAttr.replaceWsEntities em rev raw
+    | _ => Model.HtmlAttr.replaceWsEntities em [] raw
+  .ok (charsToBytes out)
+
+def quoteOf (n : Nat) : Model.HtmlAttr.Quote :=
+  if n = 39 then .single else if n = 34 then .double else .none
+
+/-- `model.c03.escape val origQuote(0|34|39) mustQuote` -/
+def escape : Handler := fun args => do
+  let v ← argChars args 0
+  let q ← argNat args 1
+  let must ← argBool args 2
+  .ok (charsToBytes (Model.HtmlAttr.escapeAttrVal v (quoteOf q) must))
+
+def trimWs : Handler := fun args => do
+  let v ← argChars args 0
+  .ok (charsToBytes (Model.HtmlAttr.trimWhitespace v))
+
+/-- `spec.c03.decode attr raw` → UTF-8 rendering of the decoded units -/
+def decode : Handler := fun args => do
+  let attr ← argBool args 0
+  let raw ← argChars args 1
+  .ok ((Spec.HtmlAttr.decodeRefs attr raw).foldr (fun u acc => duBytes u ++ acc) [])
+
+/-- `spec.c03.tokattr s` → `[raw, rest]` or `[]` when `s` does not start with a conforming attribute value -/
+def tokattr : Handler := fun args => do
+  let s ← argChars args 0
+  match Spec.HtmlAttr.tokenizeAttr s with
+  | some (raw, rest) => .ok (listReply [strBytes "ok", charsToBytes raw, charsToBytes rest])
+  | none => .ok (listReply [strBytes "none"])
+
+/-- `trig.c03.refs attr raw` → names of the known-finding triggers the raw text falls under, or `none` -/
+def trigRefs : Handler := fun args => do
+  let raw ← argChars args 1
+  let names := (if Spec.HtmlKnown.glue raw then ["glue"] else []) ++
+    (if Spec.HtmlKnown.ctlRef raw || Spec.HtmlKnown.crLfRef raw then ["ctlref"] else []) ++
+    (if Spec.HtmlKnown.hexOverflow raw then ["hexoverflow"] else [])
+  .ok (strBytes (if names.isEmpty then "none" else ",".intercalate names))
+
+/-! ### the token loop -/
+open Verif.Model.Html in
+def optsOf (m : Nat) : Opts :=
+  { keepComments := m % 2 = 1, keepSpecialComments := m / 2 % 2 = 1, keepDefaultAttrVals := m / 4 % 2 = 1,
+    keepDocumentTags := m / 8 % 2 = 1, keepEndTags := m / 16 % 2 = 1, keepQuotes := m / 32 % 2 = 1,
+    keepWhitespace := m / 64 % 2 = 1 }
+
+open Verif.Model.Html in
+def decodeAttrs : List Bytes → Except String (List Attr)
+  | [] => .ok []
+  | n :: v :: d :: t :: r => do
+    let rest ← decodeAttrs r
+    .ok ({ name := bytesToChars n, val := bytesToChars v, data := bytesToChars d, tmpl := t == [49] } :: rest)
+  | _ => .error "bad attribute group"
+
+open Verif.Model.Html in
+def decodeTok (g : List Bytes) : Except String HTok :=
+  match g with
+  | k :: r =>
+    let kind := bytesToChars k
+    if kind == ['T'] then match r with
+      | [d, t] => .ok (.text (bytesToChars d) (t == [49]))
+      | _ => .error "bad text token"
+    else if kind == ['S'] then match r with
+      | n :: as => do .ok (.startTag (bytesToChars n) (← decodeAttrs as))
+      | _ => .error "bad start tag"
+    else if kind == ['E'] then match r with
+      | [n, d] => .ok (.endTag (bytesToChars n) (bytesToChars d))
+      | _ => .error "bad end tag"
+    else if kind == ['C'] then match r with
+      | [d, t] => .ok (.comment (bytesToChars d) (bytesToChars t))
+      | _ => .error "bad comment"
+    else if kind == ['D'] then .ok .doctype
+    else if kind == ['V'] then match r with | [d] => .ok (.svg (bytesToChars d)) | _ => .error "bad svg"
+    else if kind == ['M'] then match r with | [d] => .ok (.math (bytesToChars d)) | _ => .error "bad math"
+    else if kind == ['P'] then match r with | [d] => .ok (.template (bytesToChars d)) | _ => .error "bad template"
+    else .error "unknown token kind"
+  | [] => .error "empty token group"
+
+/-- the recording stub minifier of the harness: `[label|i or -|payload]`; the label is the media type when the
+    harness registered a stub under that literal type, `?` for the catch-all pattern -/
+def stubLabels : List String :=
+  ["text/css", "application/javascript", "text/javascript", "image/svg+xml", "application/mathml+xml", "text/html",
+   "application/json", "application/ld+json", "module"]
+
+def stubSub (mime : List Char) (inline : Bool) (payload : List Char) : List Char :=
+  let label := if stubLabels.any (fun l => l.toList == mime) then mime else ['?']
+  '[' :: label ++ ['|', if inline then 'i' else '-', '|'] ++ payload ++ [']']
+
+/-- `model.c03.minify optsMask subMode ext tokens` -/
+def minifyOp : Handler := fun args => do
+  let m ← argNat args 0
+  let subMode ← argNat args 1
+  let extG ← argGroups args 2
+  let toksG ← argGroups args 3
+  let ext ← extG.mapM (fun g => match g with
+    | [k, i, o] => .ok (bytesToChars k, bytesToChars i, bytesToChars o)
+    | _ => .error "bad ext group")
+  let toks ← toksG.mapM decodeTok
+  let sub : Verif.Model.Html.Sub := if subMode = 0 then none else some stubSub
+  match Verif.Model.Html.htmlMinify (optsOf m) ext sub toks with
+  | .ok out => .ok (charsToBytes out)
+  | .error e => .error e
+
+/-- `trig.c03.doc tokens` → comma separated names of the document-level triggers that fire, or `none` -/
+def trigDoc : Handler := fun args => do
+  let toksG ← argGroups args 0
+  let toks ← toksG.mapM decodeTok
+  let names := Spec.HtmlKnownDoc.docTriggers toks
+  .ok (strBytes (if names.isEmpty then "none" else ",".intercalate names))
+
+def handlers : List (String × Handler) := [
+  ("trig.c03.doc", trigDoc),
+  ("model.c03.minify", minifyOp),
+  ("trig.c03.refs", trigRefs),
+  ("model.c03.replent", replent),
+  ("model.c03.escape", escape),
+  ("model.c03.trimws", trimWs),
+  ("spec.c03.decode", decode),
+  ("spec.c03.tokattr", tokattr)]
 
 end Verif.Driver.C03
